@@ -284,13 +284,15 @@ def r3(ctx, R):
         if not cs or not fi.cfg.must_pass(q.nodes_for(fi, cs), fi.cfg.exit, labels=("N", "T", "F")):
             R.bad(fi, fi.node, "namespace change does not invalidate (%s)" % want, stmt=want)
     db = ctx.func("DynamicBase.on_namespace_change")
-    R.inst("DynamicBase.on_namespace_change: own ItemSpaces and the roots of _dynamic_subs")
+    R.inst("DynamicBase.on_namespace_change: own ItemSpaces and the instance roots built from this space")
     own = [c for c in q.calls(db, name="on_namespace_change") if call_recv(c) == "ItemSpaceParent"] + \
         q.calls(db, name="del_all_itemspaces", recv="self")
-    lp = [x for x in walk_local(db.node) if isinstance(x, ast.For) and "_dynamic_subs" in norm(x.iter)]
-    if not own or not lp or not any(isinstance(c, ast.Call) and call_name(c) == "del_all_itemspaces" for c in ast.walk(lp[0])) \
-            or "rootspace" not in norm(lp[0].iter):
-        R.bad(db, db.node, "instances built from this space elsewhere survive a change of its members", stmt="_dynamic_subs roots")
+    roots = q.calls(db, name="clear_subs_rootitems", recv="self")
+    if not own or not db.cfg.must_pass(q.nodes_for(db, own), db.cfg.exit, labels=("N", "T", "F")):
+        R.bad(db, db.node, "a space's own ItemSpaces survive a change of its members", stmt="own ItemSpaces")
+    if not roots or not db.cfg.must_pass(q.nodes_for(db, roots), db.cfg.exit, labels=("N", "T", "F")):
+        R.bad(db, db.node, "instances built from this space (as base or as a child of their base) survive a change of its "
+                           "members: only the ItemSpaces nested in them are deleted", stmt="clear_subs_rootitems()")
     di = ctx.func("DynamicSpaceImpl._init_refs")
     R.inst("DynamicSpaceImpl._init_refs: _dynbase_refs observes the base's own_refs")
     if not [c for c in q.calls(di, name="observe") if norm(c.func.value) == "self._dynbase_refs" and
